@@ -126,7 +126,19 @@ func genTxnSchema(rng *rand.Rand, withRefs bool) TxnSchema {
 		for _, c := range t.Cols {
 			hasFixed = hasFixed || c.Name == "fixed"
 		}
-		switch rng.Intn(5) {
+		hasS := false
+		for _, c := range t.Cols {
+			hasS = hasS || c.Name == "s"
+		}
+		switch rng.Intn(6) {
+		case 5:
+			// a set column used whole (its value is unordered)
+			if hasS {
+				t.Indexes = [][]string{{"s"}}
+				if rng.Intn(2) == 0 {
+					t.Indexes = [][]string{{"name", "s"}}
+				}
+			}
 		case 0:
 			t.Indexes = [][]string{{"name"}}
 		case 1:
